@@ -109,7 +109,7 @@ type sspec struct {
 	typ     reflect.Type
 }
 
-var nameParts = []string{"Max", "Size", "Host", "Port", "Foo", "Bar", "Http", "URL", "Id", "Count", "Level", "Mode", "Path", "Key", "Val", "Xy", "Q", "Timeout", "Retry", "Addr"}
+var nameParts = []string{"Type", "Max", "Size", "Host", "Port", "Foo", "Bar", "Http", "URL", "Id", "Count", "Level", "Mode", "Path", "Key", "Val", "Xy", "Q", "Timeout", "Retry", "Addr"}
 
 func foldName(s string) string { return strings.ToLower(strings.ReplaceAll(s, "_", "")) }
 
@@ -257,7 +257,7 @@ func (s *sspec) Type() reflect.Type {
 func spell(t *rapid.T, goName string) string {
 	for try := 0; ; try++ {
 		var sb strings.Builder
-		style := gen.Weighted(t, "spellstyle", 30, 25, 20, 25)
+		style := gen.Weighted(t, "spellstyle", 28, 23, 18, 23, 8)
 		for i, r := range goName {
 			c := string(r)
 			switch style {
@@ -270,6 +270,8 @@ func spell(t *rapid.T, goName string) string {
 				sb.WriteString(c)
 			case 2: // lower
 				sb.WriteString(strings.ToLower(c))
+			case 4: // upper
+				sb.WriteString(strings.ToUpper(c))
 			default: // anything goes
 				if gen.Chance(t, 20, "us") {
 					sb.WriteString(strings.Repeat("_", gen.Int(t, 1, 2, "nus")))
@@ -285,7 +287,7 @@ func spell(t *rapid.T, goName string) string {
 			sb.WriteByte('_')
 		}
 		s := sb.String()
-		if !gen.IsKeyword(s) && s != "TYPE" && s != "NAME" {
+		if !gen.IsKeyword(s) && s != "NAME" {
 			return s
 		}
 		if try > 10 {
@@ -335,10 +337,20 @@ func (w *bclWriter) line(format string, a ...any) {
 
 // fill draws a value for v (a settable struct of spec s) and writes the
 // block that denotes it. wrongKey plants one key outside the folding class.
+// lastBlockName is the name given to the previous named block of the case
+// being generated (reset per case).
+var lastBlockName string
+
 func fill(t *rapid.T, s *sspec, v reflect.Value, w *bclWriter, btype string, feat map[string]int, wrongKey *bool) {
 	name := ""
 	if s.NamePos >= 0 && gen.Chance(t, 75, "named") {
 		name = gen.StrValue(t, 4)
+		// elements of a slice (and blocks anywhere) may carry equal names
+		if lastBlockName != "" && gen.Chance(t, 20, "repeatname") {
+			name = lastBlockName
+			feat["repeated-block-name"]++
+		}
+		lastBlockName = name
 		if name != "" {
 			v.FieldByName("Name").SetString(name)
 		}
@@ -535,6 +547,7 @@ func TestC05(t *testing.T) {
 	}
 	rapid.Check(t, func(t *rapid.T) {
 		feat := map[string]int{}
+		lastBlockName = ""
 		var spec *sspec
 		if gen.Chance(t, 30, "namedtop") {
 			spec = specOf(gen.Pick(t, "namedtype", namedTypes))
